@@ -9,19 +9,24 @@ from .util import safe_call
 ALGOS = ["md5", "md5-dos2unix", "sha256"]
 
 
-def digest(name, data):
+def _is_text_block(blk):
+    if not blk:
+        return True
+    if 0 in blk:
+        return False
+    tc = set(range(32, 127)) | {10, 13, 9, 12, 8}
+    return 10 * sum(1 for c in blk if c not in tc) <= 3 * len(blk)
+
+
+def digest(name, data, chunk=2**20):
+    """independent reference digests; the legacy md5 decides text / binary for every chunk the file is read in (1 MiB),
+    from the first 512 bytes of that chunk"""
     if name == "md5-dos2unix":
-        text = True
-        blk = data[:512]
-        if blk:
-            if 0 in blk:
-                text = False
-            else:
-                tc = set(range(32, 127)) | {10, 13, 9, 12, 8}
-                text = 10 * sum(1 for c in blk if c not in tc) <= 3 * len(blk)
-        else:
-            text = False if not data else True
-        return hashlib.md5(data.replace(b"\r\n", b"\n") if (text and data) else data).hexdigest()
+        h = hashlib.md5()
+        for i in range(0, len(data), chunk):
+            c = data[i:i + chunk]
+            h.update(c.replace(b"\r\n", b"\n") if _is_text_block(c[:512]) else c)
+        return h.hexdigest()
     return hashlib.new(name, data).hexdigest()
 
 
